@@ -30,7 +30,9 @@ COMMON = ["-g", "-fno-omit-frame-pointer", "-DDWGREP_VERIF",
           "-Wno-deprecated-declarations", "-w"]
 VARIANTS = {
     "asan": ["-O1", "-fsanitize=address,undefined",
-             "-fno-sanitize-recover=undefined", "-DZSIM_ASAN=1"],
+             "-fno-sanitize-recover=undefined", "-DZSIM_ASAN=1",
+             # ASan also sees accesses between size() and capacity() of a vector
+             "-D_GLIBCXX_SANITIZE_VECTOR=1"],
     "plain": ["-O2", "-DZSIM_ASAN=0"],
 }
 LINK = {
